@@ -477,7 +477,13 @@ func c19SingleConsumer(c *Ctx, r *Report, rule string) {
 					}
 				case *ssa.DebugRef:
 				default:
-					bad = "lets it escape (" + describe(ref.(ssa.Value)) + ")"
+					what := fmt.Sprintf("%T", ref)
+					if v, isVal := ref.(ssa.Value); isVal {
+						what = describe(v)
+					} else if st, isSt := ref.(*ssa.Store); isSt {
+						what = "stored into " + describe(st.Addr)
+					}
+					bad = "lets it escape (" + what + ")"
 				}
 				if bad != "" {
 					seen[k] = append(seen[k], bad+" at "+posOf(c, ref))
